@@ -8,6 +8,10 @@ open GlueVerif.C18
 #print axioms viewer_layers_plain
 #print axioms restore_layers
 #print axioms refresh_sound_complete
+#print axioms kind_filter_whitelist
+#print axioms unfiltered_kind_never_offered
+#print axioms class_offered_iff
+#print axioms kinds_covered
 #print axioms refresh_order
 #print axioms refresh_nodup
 #print axioms refresh_none
